@@ -1,5 +1,305 @@
 /- Proofs/Respects.lean — helper lemmas for Props/C11.lean, C12.lean, C18.lean -/
 import PM.Monitor
 import Proofs.StepToks
+import Proofs.MarkEffect
+import Proofs.StepMap
 namespace PM
+
+/-! ### content filter, structural windows -/
+
+theorem structuralOnly_iff (l : List Tok) : structuralOnly l = true ↔ l.filter Tok.isContent = [] := by
+  simp [structuralOnly, List.filter_eq_nil_iff]
+
+theorem structuralOnly_append (a b : List Tok) :
+    structuralOnly (a ++ b) = (structuralOnly a && structuralOnly b) := by
+  simp [structuralOnly]
+
+theorem between_of_le (d : List Tok) (a b : Nat) (h : a ≤ b) : between d a b = (d.drop a).take (b - a) := by
+  simp [between, Nat.min_eq_left h, Nat.max_eq_right h]
+
+theorem between_comm (d : List Tok) (a b : Nat) : between d a b = between d b a := by
+  simp [between, Nat.min_comm, Nat.max_comm]
+
+theorem take_split {α} (d : List α) (a b : Nat) (h : a ≤ b) :
+    d.take b = d.take a ++ (d.drop a).take (b - a) := by
+  have : b = a + (b - a) := by omega
+  conv => lhs; rw [this, List.take_add]
+
+theorem drop_split {α} (d : List α) (a b : Nat) (h : a ≤ b) :
+    d.drop a = (d.drop a).take (b - a) ++ d.drop b := by
+  have : d.drop b = (d.drop a).drop (b - a) := by rw [List.drop_drop]; congr 1; omega
+  rw [this, List.take_append_drop]
+
+/-- the content before two positions separated by structural tokens only is the same -/
+theorem content_take_eq (d : List Tok) (a b : Nat) (h : structuralOnly (between d a b) = true) :
+    (d.take a).filter Tok.isContent = (d.take b).filter Tok.isContent := by
+  rcases Nat.le_total a b with hab | hab
+  · rw [between_of_le d a b hab, structuralOnly_iff] at h
+    rw [take_split d a b hab, List.filter_append, h, List.append_nil]
+  · rw [between_comm, between_of_le d b a hab, structuralOnly_iff] at h
+    rw [take_split d b a hab, List.filter_append, h, List.append_nil]
+
+/-- … and so is the content after them -/
+theorem content_drop_eq (d : List Tok) (a b : Nat) (h : structuralOnly (between d a b) = true) :
+    (d.drop a).filter Tok.isContent = (d.drop b).filter Tok.isContent := by
+  rcases Nat.le_total a b with hab | hab
+  · rw [between_of_le d a b hab, structuralOnly_iff] at h
+    rw [drop_split d a b hab, List.filter_append, h, List.nil_append]
+  · rw [between_comm, between_of_le d b a hab, structuralOnly_iff] at h
+    rw [drop_split d b a hab, List.filter_append, h, List.nil_append]
+
+theorem textUnits_append (a b : List Tok) : textUnits (a ++ b) = textUnits a ++ textUnits b := by
+  induction a with
+  | nil => rfl
+  | cons x xs ih => cases x <;> simp [textUnits, ih]
+
+theorem textUnits_filter (l : List Tok) : textUnits (l.filter Tok.isContent) = textUnits l := by
+  induction l with
+  | nil => rfl
+  | cons x xs ih => cases x <;> simp [textUnits, Tok.isContent, List.filter_cons, ih]
+
+theorem isSubseq_nil {α} [DecidableEq α] (xs : List α) (h : isSubseq xs [] = true) : xs = [] := by
+  cases xs with
+  | nil => rfl
+  | cons x xs => simp [isSubseq] at h
+
+theorem sliceToks'_empty : sliceToks' Slice.empty = [] := by
+  simp [sliceToks', Slice.empty]
+
+theorem sliceToks'_eq (sl : Slice) : sliceToks' sl = sl.toks := rfl
+
+/-! ### splices leave the outside alone (C18) -/
+
+theorem splice_outside {α} (d S N : List α) (F T a b : Nat) (haF : a < F) (hFT : F ≤ T) (hTb : T < b)
+    (hb : b ≤ d.length) (hN : N = d.take F ++ S ++ d.drop T) :
+    N.take (a + 1) = d.take (a + 1) ∧
+    N.drop (b - 1 + N.length - d.length) = d.drop (b - 1) ∧
+    d.length ≤ b - 1 + N.length := by
+  have hlen : N.length = F + S.length + (d.length - T) := by
+    subst hN; simp; omega
+  refine ⟨?_, ?_, by omega⟩
+  · subst hN
+    rw [List.append_assoc, List.take_append_of_le_length (by simp; omega), List.take_take]
+    congr 1; omega
+  · have e : b - 1 + N.length - d.length = (d.take F ++ S).length + (b - 1 - T) := by
+      simp; omega
+    rw [e]; subst hN
+    rw [← List.drop_drop, List.drop_left, List.drop_drop]
+    congr 1; omega
+
+/-- a pointwise change inside `[F, T)` of an equally long list -/
+theorem pointwise_outside {α} (d N : List α) (F T a b : Nat) (haF : a < F) (hTb : T < b)
+    (hlen : N.length = d.length) (hout : ∀ i, ¬ (F ≤ i ∧ i < T) → N[i]? = d[i]?) :
+    N.take (a + 1) = d.take (a + 1) ∧
+    N.drop (b - 1 + N.length - d.length) = d.drop (b - 1) ∧
+    d.length ≤ b - 1 + N.length := by
+  refine ⟨?_, ?_, by omega⟩
+  · apply List.ext_getElem?
+    intro i
+    simp only [List.getElem?_take]
+    split
+    · exact hout i (by omega)
+    · rfl
+  · rw [hlen, Nat.add_sub_cancel]
+    apply List.ext_getElem?
+    intro i
+    simp only [List.getElem?_drop]
+    exact hout _ (by omega)
+
+theorem mapIdxCtx_outside (g : Nat → TypeId → Tok → Tok) (top : TypeId) (l : List Tok) (F T : Nat)
+    (hg : ∀ i p tok, ¬ (F ≤ i ∧ i < T) → g i p tok = tok) (i : Nat) (hi : ¬ (F ≤ i ∧ i < T)) :
+    (mapIdxCtx g top l)[i]? = l[i]? := by
+  rw [mapIdxCtx_getElem?]
+  split
+  · rename_i h
+    rw [hg i _ _ hi, List.getD_eq_getElem?_getD, List.getElem?_eq_getElem h]; rfl
+  · rename_i h
+    exact (List.getElem?_eq_none (by omega)).symm
+
+/-! ### `content_between` on tokens (C12) -/
+
+/-- every node of a resolved path below its head is an element node -/
+theorem resolveScan_tail_elem (node : Node) (start : Nat) (rest : List Node) (idx cur po : Nat)
+    (path : Path) (h : resolveScan node start rest idx cur po = some path) :
+    ∀ e ∈ path.tail, ∃ t a m k, e.node = Node.elem t a m k := by
+  fun_induction resolveScan node start rest idx cur po generalizing path
+  case case1 => simp at h; subst h; simp
+  case case2 => simp at h
+  case case3 => simp at h; subst h; simp
+  case case4 node start n ns idx cur po h0 h1 ih => exact ih path h
+  case case5 node start ns idx cur po h0 ty ats mk kids h1 ih =>
+    cases hr : resolveScan (Node.elem ty ats mk kids) (start + cur + 1) kids 0 0 (po - 1) with
+    | none => simp [hr] at h
+    | some p' =>
+      simp only [hr, Option.map_some, Option.some.injEq] at h
+      subst h
+      obtain ⟨_, ⟨e', tl, rfl, he'⟩, _⟩ :=
+        resolveScan_ok _ _ kids 0 0 (po - 1) _ [] (by simp [Node.kids]) rfl (by simp [fsize]) hr
+      intro e he
+      simp only [List.tail_cons, List.mem_cons] at he
+      rcases he with rfl | he
+      · exact ⟨ty, ats, mk, kids, he'⟩
+      · exact ih _ hr e (by simpa using he)
+  case case6 => simp at h; subst h; simp
+
+theorem resolve_node_elem {doc : Node} {pos : Nat} {r : RPos} (h : doc.resolve pos = some r)
+    (k : Nat) (hk : k < r.depth) : ∃ t a m kids, r.node (k + 1) = Node.elem t a m kids := by
+  unfold Node.resolve at h
+  split at h
+  · cases hr : resolveScan doc 0 doc.kids 0 0 pos with
+    | none => simp [hr] at h
+    | some p =>
+      simp only [hr, Option.map_some, Option.some.injEq] at h
+      subst h
+      simp only [RPos.depth] at hk
+      have hlt : k + 1 < p.length := by omega
+      apply resolveScan_tail_elem _ _ _ _ _ _ _ hr
+      simp only [RPos.entry]
+      cases p with
+      | nil => simp at hlt
+      | cons e tl =>
+        simp only [List.length_cons] at hlt
+        simp [List.getElem!_eq_getElem?_getD, List.getElem?_eq_getElem (show k < tl.length by omega)]
+  · simp at h
+
+theorem fsize_take_succ (kids : List Node) (i : Nat) (c : Node) (h : kids[i]? = some c) :
+    fsize (kids.take (i + 1)) = fsize (kids.take i) + c.size := by
+  rw [List.take_add_one, h, fsize_append]
+  simp [fsize]
+
+theorem getElem?_of_window {α} (G : List α) (q n : Nat) (L : List α) (h : (G.drop q).take n = L)
+    (i : Nat) (hi : i < L.length) : G[q + i]? = L[i]? := by
+  subst h
+  simp only [List.length_take, List.length_drop] at hi
+  rw [List.getElem?_take_of_lt (by omega), List.getElem?_drop]
+
+/-- `descend` answers "no" only if it runs out of distance while reading open tokens -/
+theorem descend_false : ∀ (dist : Nat) (next : Option Node) (X : List Tok),
+    contentBetween.descend dist next = false →
+    (∀ n, next = some n → ∃ Y, X = n.toks ++ Y) → structuralOnly (X.take dist) = true
+  | 0, _, X, _, _ => by simp [structuralOnly]
+  | dist + 1, none, X, h, _ => by simp [contentBetween.descend] at h
+  | dist + 1, some n, X, h, hx => by
+    obtain ⟨Y, rfl⟩ := hx n rfl
+    cases n with
+    | text s m => simp [contentBetween.descend, Node.isLeaf] at h
+    | leaf ty a m => simp [contentBetween.descend, Node.isLeaf] at h
+    | elem ty a m kids =>
+      simp only [contentBetween.descend, Node.isLeaf, Bool.false_eq_true, if_false, Node.kids] at h
+      simp only [Node.toks, List.cons_append, List.take_succ_cons]
+      have ih := descend_false dist kids.head? (ftoks kids ++ [Tok.cl] ++ Y) h (by
+        intro c hc
+        cases kids with
+        | nil => simp at hc
+        | cons c' cs =>
+          simp only [List.head?_cons, Option.some.injEq] at hc; subst hc
+          exact ⟨ftoks cs ++ [Tok.cl] ++ Y, by simp [ftoks]⟩)
+      simp only [structuralOnly, List.all_cons, Tok.isContent, Bool.not_false, Bool.true_and]
+      exact ih
+
+/-- the loop invariant of `climb`: `dist` tokens are left, the ones read so far are close tokens, and
+    the current position is the child boundary `indexAfter depth` of the node at `depth` -/
+structure ClimbInv (doc : Node) (f t : Nat) (r : RPos) (depth dist : Nat) : Prop where
+  hd : depth ≤ r.depth
+  le : f + dist ≤ t
+  so : structuralOnly (((ftoks doc.kids).drop f).take (t - dist - f)) = true
+  at_ : t - dist = r.start depth + fsize ((r.node depth).kids.take (r.indexAfter depth))
+
+theorem climbInv_init (doc : Node) (f t : Nat) (r : RPos) (hft : f ≤ t) (R : Resolved doc f r)
+    (h0 : r.textOffset = 0) : ClimbInv doc f t r r.depth (t - f) := by
+  refine ⟨Nat.le_refl _, by omega, ?_, ?_⟩
+  · have : t - (t - f) - f = 0 := by omega
+    rw [this]; simp [structuralOnly]
+  · have he := R.entry r.depth (Nat.le_refl _)
+    have hp := R.pos_eq
+    simp only [RPos.textOffset] at h0
+    have h1 := he.pos_le
+    have h2 := he.pos_eq
+    have hi : r.indexAfter r.depth = (r.entry r.depth).index := by
+      simp [RPos.indexAfter, RPos.textOffset, h0, RPos.index]
+    rw [hi]
+    show t - (t - f) = r.start r.depth + fsize ((r.entry r.depth).node.kids.take (r.entry r.depth).index)
+    omega
+
+theorem climbInv_step (doc : Node) (f t : Nat) (r : RPos) (hr : doc.resolve f = some r)
+    (depth dist : Nat) (I : ClimbInv doc f t r depth dist) (hdist : 0 < dist) (hdep : 0 < depth)
+    (hend : r.indexAfter depth = (r.node depth).kids.length) :
+    ClimbInv doc f t r (depth - 1) (dist - 1) := by
+  have R := resolve_resolved hr
+  obtain ⟨k, rfl⟩ : ∃ k, depth = k + 1 := ⟨depth - 1, by omega⟩
+  have hk : k < r.depth := I.hd
+  obtain ⟨ty, a, m, kids, hn⟩ := resolve_node_elem hr k hk
+  have hw := R.window_node k hk
+  have hat := I.at_
+  rw [hend, List.take_length, Resolved.start_succ, hn] at hat
+  simp only [Node.kids] at hat
+  rw [hn] at hw
+  -- the token at the current position is the close token of the node at `depth`
+  have hcl : (ftoks doc.kids)[t - dist]? = some Tok.cl := by
+    have := getElem?_of_window _ _ _ _ hw (1 + fsize kids) (by simp [Node.toks, ftoks_length]; omega)
+    rw [show (r.entry k).pos + (1 + fsize kids) = t - dist by omega] at this
+    rw [this, ← ftoks_length, Nat.add_comm]
+    simp only [Node.toks, List.getElem?_cons_succ]
+    rw [List.getElem?_append_right (Nat.le_refl _)]
+    simp
+  have hle := I.le
+  refine ⟨by omega, by omega, ?_, ?_⟩
+  · have e : t - (dist - 1) - f = (t - dist - f) + 1 := by omega
+    rw [e, List.take_add_one, List.getElem?_drop, show f + (t - dist - f) = t - dist by omega, hcl,
+      structuralOnly_append, I.so]
+    rfl
+  · have hc := (R.chain k hk).1
+    have he := (R.entry k (by omega)).pos_eq
+    have hi : r.indexAfter k = r.index k + 1 := by
+      have : ¬ (k = r.depth) := by omega
+      simp [RPos.indexAfter, this]
+    simp only [Nat.add_sub_cancel]
+    rw [hi, fsize_take_succ _ _ _ hc, hn]
+    simp only [Node.size]
+    change (r.entry k).pos = r.start k + fsize ((r.node k).kids.take (r.index k)) at he
+    omega
+
+theorem climb_inv (doc : Node) (f t : Nat) (r : RPos) (hr : doc.resolve f = some r) :
+    ∀ (fuel depth dist : Nat), ClimbInv doc f t r depth dist →
+      ClimbInv doc f t r (contentBetween.climb r fuel depth dist).1 (contentBetween.climb r fuel depth dist).2
+  | 0, depth, dist, I => by simpa [contentBetween.climb] using I
+  | fuel + 1, depth, dist, I => by
+    unfold contentBetween.climb
+    split
+    · rename_i hc
+      simp only [Bool.and_eq_true, decide_eq_true_eq, beq_iff_eq, gt_iff_lt] at hc
+      exact climb_inv doc f t r hr fuel _ _ (climbInv_step doc f t r hr depth dist I hc.1.1 hc.1.2 hc.2)
+    · exact I
+
+/-- from a node boundary, `content_between` answers "no" only for closes-then-opens ranges -/
+theorem contentBetween_structural' (doc : Node) (f t : Nat) (hft : f ≤ t)
+    (hb : atBoundary doc f = true) (h : contentBetween doc f t = some false) :
+    structuralOnly (((ftoks doc.kids).drop f).take (t - f)) = true := by
+  unfold atBoundary at hb
+  unfold contentBetween at h
+  cases hr : doc.resolve f with
+  | none => simp [hr] at hb
+  | some r =>
+    rw [hr] at hb h
+    simp only [beq_iff_eq] at hb h
+    have R := resolve_resolved hr
+    have I := climb_inv doc f t r hr (r.depth + 1) r.depth (t - f) (climbInv_init doc f t r hft R hb)
+    generalize hc : contentBetween.climb r (r.depth + 1) r.depth (t - f) = cd at h I
+    obtain ⟨d', dist'⟩ := cd
+    simp only at h I
+    have hle := I.le
+    rw [take_split _ (t - dist' - f) (t - f) (by omega), structuralOnly_append, I.so, Bool.true_and,
+      List.drop_drop, show f + (t - dist' - f) = t - dist' by omega,
+      show t - f - (t - dist' - f) = dist' by omega]
+    by_cases hd0 : dist' > 0
+    · rw [if_pos hd0] at h
+      simp only [Option.some.injEq] at h
+      refine descend_false dist' _ _ h ?_
+      intro n hn
+      have hw := window_child _ _ _ _ _ (R.window_kids d' I.hd) hn
+      rw [← I.at_] at hw
+      exact ⟨((ftoks doc.kids).drop (t - dist')).drop n.size, by rw [← hw, List.take_append_drop]⟩
+    · have : dist' = 0 := by omega
+      subst this; simp [structuralOnly]
+
 end PM
